@@ -96,6 +96,50 @@ func (x *Exec) callStatic(st *State, i *ssa.Call, callee *ssa.Function, args, bi
 		k(st)
 		return
 	}
+	// a function of this module that the contracts do not know (a helper introduced by a change):
+	// its body is executed in place of the call, like an `inline` function - a loop in it is cut by
+	// the invariant true, its stores carry the caller's frame obligations
+	if callee.Blocks != nil && callee.Pkg != nil && strings.HasPrefix(callee.Pkg.Pkg.Path(), modPath) && fr.depth < 4 && !x.onInlineStack(fr, callee) {
+		x.W.noteOnce("call to " + callee.String() + " (no contract): body inlined at the call site")
+		pre := st.clone()
+		pre.hyps = append([]*Term(nil), st.hyps...)
+		pre.path = append([]string(nil), st.path...)
+		pre.effects = append([]Effect(nil), st.effects...)
+		inCallee, failed := true, false
+		func() {
+			defer func() {
+				if r := recover(); r != nil {
+					e, ok := r.(vcErr)
+					if !ok || !inCallee {
+						panic(r)
+					}
+					// the helper's body is outside the subset: treated as an unknown callee below
+					failed = true
+					x.W.noteOnce("call to " + callee.String() + ": body not executable symbolically (" + e.msg + "): treated as an unknown callee")
+				}
+			}()
+			nfr := &frame{fi: fi, depth: fr.depth + 1, parent: fr}
+			nfr.ret = func(s *State, rs []Value) {
+				inCallee = false
+				setResult(s, rs)
+				k(s)
+				inCallee = true
+			}
+			for j, p := range callee.Params {
+				st.regs[p] = args[j]
+			}
+			for j, fv := range callee.FreeVars {
+				if j < len(binds) {
+					st.regs[fv] = binds[j]
+				}
+			}
+			x.enterBlock(st, callee.Blocks[0], nil, nfr)
+		}()
+		if !failed {
+			return
+		}
+		st = pre
+	}
 	// no contract: havoc results
 	ptrArg := false
 	for _, a := range c.Args {
